@@ -501,6 +501,17 @@ def g_special_programs(ctx, rng, i):
         d3.add_node(c)
         d3.calculate()
         d.calculate()
+        # a diagram whose nodes were registered before their edges (and one that stays isolated), then copied
+        d4 = TensorDiagram()
+        d4.add_node(b)
+        d4.add_node(c)
+        d4.add_edge(a, b)
+        d4.calculate()
+        d5 = d4.copy()
+        d5.calculate()
+        d5.add_edge(a, c)
+        d5.calculate()
+        d4.calculate()
 
 
 def g_operators(ctx, rng, i):
